@@ -142,3 +142,12 @@ Theorem C14_empty_vector_is_least : forall L, wf_plist L = true -> L <> [] ->
   vec_less L v1 v2 = negb (Z.of_nat (length l2) =? 0)%Z /\ vec_less L v2 v1 = false.
 Proof. intros L Hwf HL v1 l1 v2 l2. exact (vec_less_empty L Hwf HL v1 v2 l1 l2). Qed.
 Print Assumptions C14_empty_vector_is_least.
+
+(* == and < are consistent at vector level on EVERY list (floating-point fields included) and
+   whichever of the four path combinations the two operators take: vectors that compare equal
+   are not ordered either way *)
+Theorem C14_equal_vectors_are_not_less : forall L, wf_plist L = true -> L <> [] ->
+  forall v1 l1 v2 l2, Rep L v1 l1 -> Rep L v2 l2 ->
+  vec_equal L v1 v2 = true -> vec_less L v1 v2 = false /\ vec_less L v2 v1 = false.
+Proof. exact vec_equal_not_less. Qed.
+Print Assumptions C14_equal_vectors_are_not_less.
